@@ -40,8 +40,70 @@ NO_LOOKUP_FILES = ['source.py', 'primitive.py', 'triangleset.py', 'polylist.py',
                    'light.py', 'camera.py', 'animation.py', 'asset.py']
 
 
+PYCLS = {'ValueError': 'PC_ValueError', 'TypeError': 'PC_TypeError', 'AttributeError': 'PC_AttributeError',
+         'LookupError': 'PC_LookupError', 'IndexError': 'PC_IndexError', 'KeyError': 'PC_KeyError',
+         'ArithmeticError': 'PC_ArithmeticError', 'Exception': 'PC_Exception'}
+
+
 class Reject(Exception):
     pass
+
+
+def raw_load_errors(repo):
+    """the tuple common.DaeRawLoadErrors: which built-in classes a load boundary converts"""
+    tree = ast.parse(open(os.path.join(repo, 'collada', 'common.py')).read())
+    found = None
+    for n in tree.body:
+        if isinstance(n, ast.Assign) and len(n.targets) == 1 and isinstance(n.targets[0], ast.Name) \
+                and n.targets[0].id == 'DaeRawLoadErrors':
+            if found is not None or not isinstance(n.value, ast.Tuple):
+                raise Reject('DaeRawLoadErrors is not a single tuple assignment')
+            found = []
+            for e in n.value.elts:
+                if not isinstance(e, ast.Name) or e.id not in PYCLS:
+                    raise Reject('DaeRawLoadErrors names an unknown class')
+                found.append(PYCLS[e.id])
+    if found is None:
+        raise Reject('common.DaeRawLoadErrors not found')
+    return found
+
+
+def _is_boundary(tr):
+    """try: ... except DaeError as ex: <x>.handleError(ex)  except DaeRawLoadErrors as ex: <x>.handleRawLoadError(..)"""
+    names = []
+    for h in tr.handlers:
+        if isinstance(h.type, ast.Name):
+            names.append(h.type.id)
+            if h.type.id == 'DaeRawLoadErrors':
+                calls = [c for c in ast.walk(h) if isinstance(c, ast.Call) and isinstance(c.func, ast.Attribute)
+                         and c.func.attr == 'handleRawLoadError']
+                if len(calls) != 1 or len(h.body) != 1:
+                    raise Reject('a DaeRawLoadErrors handler does something else than handleRawLoadError')
+    return 'DaeError' in names and 'DaeRawLoadErrors' in names, 'DaeError' in names
+
+
+def boundaries(repo):
+    """the load steps whose per-object try/except converts DaeRawLoadErrors, and whether the child
+    loop of Node.load does"""
+    tree = ast.parse(open(os.path.join(repo, 'collada', '__init__.py')).read())
+    cls = [n for n in tree.body if isinstance(n, ast.ClassDef) and n.name == 'Collada'][0]
+    libs = []
+    for f in cls.body:
+        if isinstance(f, ast.FunctionDef) and f.name in STEPS:
+            tries = [t for t in ast.walk(f) if isinstance(t, ast.Try)]
+            flags = [_is_boundary(t) for t in tries]
+            guarded = [fl for fl in flags if fl[1]]          # try blocks that catch DaeError at all
+            if guarded and all(fl[0] for fl in guarded):
+                libs.append(STEPS[f.name])
+    tree = ast.parse(open(os.path.join(repo, 'collada', 'scene.py')).read())
+    node = [n for n in tree.body if isinstance(n, ast.ClassDef) and n.name == 'Node']
+    child = False
+    if len(node) == 1:
+        for f in node[0].body:
+            if isinstance(f, ast.FunctionDef) and f.name == 'load':
+                tries = [t for t in ast.walk(f) if isinstance(t, ast.Try)]
+                child = bool(tries) and all(_is_boundary(t)[0] for t in tries)
+    return libs, child
 
 
 def hierarchy(repo):
@@ -153,7 +215,7 @@ def lookups(repo):
     return sorted(pairs)
 
 
-def render(base, order, pairs):
+def render(base, order, pairs, raw=(), bounds=((), False)):
     lines = ['(* GENERATED by harness/translate/params.py from collada/common.py, collada/__init__.py and the',
              '   loader classes - do not edit.  Regenerated on every build; proofs are stated against it. *)',
              'From Coq Require Import List.', 'From PC Require Import Base.Libs.', 'Import ListNotations.', '',
@@ -166,14 +228,19 @@ def render(base, order, pairs):
               'Definition load_order : list lib :=', '  [' + '; '.join(order) + '].', '',
               '(* (step, library list it reads): collada.<lib> reads inside the loaders run by that step *)',
               'Definition lookups : list (lib * lib) :=',
-              '  [' + '; '.join('(%s, %s)' % p for p in pairs) + '].', '']
+              '  [' + '; '.join('(%s, %s)' % p for p in pairs) + '].', '',
+              '(* common.DaeRawLoadErrors: the built-in classes a load boundary reports as DaeMalformedError *)',
+              'Definition raw_load_errors : list pycls :=', '  [' + '; '.join(raw) + '].', '',
+              '(* load steps whose per-object try/except has the DaeRawLoadErrors clause; the child loop of Node.load *)',
+              'Definition raw_boundaries : list lib :=', '  [' + '; '.join(bounds[0]) + '].',
+              'Definition node_child_boundary : bool := %s.' % ('true' if bounds[1] else 'false'), '']
     return '\n'.join(lines)
 
 
 def main(argv):
     repo, gen = argv[1], argv[2]
     try:
-        text = render(hierarchy(repo), load_order(repo), lookups(repo))
+        text = render(hierarchy(repo), load_order(repo), lookups(repo), raw_load_errors(repo), boundaries(repo))
     except (Reject, SyntaxError, OSError) as e:
         sys.stderr.write('params: source does not match the accepted grammar: %s\n' % (e,))
         return 1
